@@ -45,6 +45,8 @@ pub struct PathOutcome {
     pub final_model: Option<Model>,
     /// model contents after each operation (only with log_io)
     pub snapshots: Vec<std::collections::BTreeMap<Vec<u8>, crate::model::Gen>>,
+    /// structural violations found on the live store right after an acknowledged flush
+    pub flush_checks: Vec<String>,
     pub image: Option<Vec<u8>>,
 }
 
@@ -375,6 +377,12 @@ pub fn run_path(s: &Suite, hist: &[u16], parent_outs_hash: Option<u64>, verbose:
         let verdict = model.step(&s.tables, &op, &out, ts);
         if s.log_io {
             po.snapshots.push(model.map.clone());
+            if matches!(op, Op::Flush | Op::Reopen | Op::Tick) && out == Out::Unit {
+                let d = sut.store().verif_dump();
+                if d.buffered.is_empty() && d.retirements.is_empty() {
+                    po.flush_checks.extend(crate::crash::structural_live(&s.cfg, &d));
+                }
+            }
         }
         po.outs.push(out);
         po.ts.push(ts);
